@@ -150,6 +150,13 @@ def _case(args):
                                 break
                         except Exception:
                             pass
+                    # ... and so must the common ancestor (merge builds on a branch of it, never on the ancestor itself)
+                    if anc is not None:
+                        try:
+                            if model_set(uni, anc) != frozenset(uni.models(adds_of(anc_spec))):
+                                part.fail(f"{cls}:{kind}:ancestor-changed", case, {"ancestor": anc_spec})
+                        except Exception:  # noqa: BLE001
+                            pass
                 else:  # split
                     spec = item
                     s = build(uni, cls, cfg, spec)
@@ -211,8 +218,11 @@ def specs_for(tier, with_q=True):
     if tier == "quick":
         out += [("x!=0", "x<u5"), ("x+y==5", "c"), ("x==3", "x!=0"), ("c", "y>u6")]
         out += [("x!=0", "q"), ("x+y==5", "q"), ("c", "q"), ("x<u5", "m"), ("x+y==5", "x<u5", "q")]
+        # receivers / operands already known to be unsatisfiable (syntactically, and only after a query)
+        out += [("x==3", "x==5"), ("x==3", "x<u2", "q")]
         return out
     out += list(itertools.permutations(KS, 2))
+    out += [("x==3", "x==5"), ("x==3", "x<u2", "q")]
     if with_q:
         out += [(*sp, "q") for sp in out[1:8]] + [(*sp, "m") for sp in out[1:4]]
     return out
